@@ -540,3 +540,17 @@ theorem subcall_tm_call (C : Crypto) (cx : ICtx) (tm : Bytes) (f : String) (args
   exact ⟨out, hcall, htms, hkind, subcall_keeps_its _ _ _ _ _ _ _ _ _ _ h, hnow, hrs, w2, heff, hacc⟩
 
 end Axelar.ItsW
+
+namespace Axelar.ItsW
+open Axelar Codec Its World
+
+/-- registering a pending asynchronous call: no balance moves; the descriptor is appended -/
+theorem addPend_run (cx : ICtx) (dst : Bytes) (func : String) (egld : Nat) (esdt : List (String × Nat × Nat))
+    (args : List Bytes) (kind : PendKind) (t : Tx) :
+    addPend cx dst func egld esdt args kind t =
+      some ((), { t with
+        w := { t.w with pending := t.w.pending ++ [⟨⟨t.w.nextPending, dst, func, egld, esdt, args⟩, cx.self, kind, none⟩],
+                        nextPending := t.w.nextPending + 1 },
+        pend := t.pend ++ [⟨t.w.nextPending, dst, func, egld, esdt, args⟩] }) := rfl
+
+end Axelar.ItsW
